@@ -363,6 +363,46 @@ class _TaskGen(object):
             self.ops.append(call)
         return True
 
+    def add_sweep(self):
+        """A parameter sweep: the configuration of a live object repeated with ONE integer parameter
+        stepped (richardson_terms, order, n or num_steps), each variant called at the same point -
+        the usage that makes caches grow entry by entry."""
+        rng = self.rng
+        cands = [o for o in self.live() if self.objs[o]['new']['fun']['name'] != 'nested']
+        if not cands:
+            return False
+        base = self.objs[rng.choice(cands)]
+        tmpl = base['new']
+        param = rng.choice(['rt', 'rt', 'order', 'n', 'num_steps'])
+        if param == 'n' and tmpl['cls'] in HESS:
+            param = 'rt'
+        start = {'rt': tmpl.get('rt') or 2, 'order': tmpl.get('order', 2), 'n': tmpl.get('n', 1),
+                 'num_steps': (tmpl.get('opts') or {}).get('num_steps', 5)}[param]
+        step = rng.choice([1, 1, 2, -1])
+        x = self.x_for(tmpl['cls'])
+        for j in range(1, rng.randint(2, 3) + 1):
+            if len(self.live()) >= self.k['maxobjs'] + 2:
+                break
+            val = max(1, start + j * step)
+            new = copy.deepcopy(tmpl)
+            name = self.name('o')
+            new['o'] = name
+            if param == 'num_steps':
+                if isinstance(new.get('step'), dict):
+                    continue
+                new.setdefault('opts', {})['num_steps'] = val
+            else:
+                new[param] = val
+            self.ops.append(new)
+            self.objs[name] = {'cls': new['cls'], 'args': base['args'], 'live': True,
+                               'depth': base['depth'], 'new': new}
+            self.changed[name] = {}
+            call = {'op': 'call', 'o': name, 'x': copy.deepcopy(x)}
+            if base['args'] is not None:
+                call['args'], call['kwds'] = copy.deepcopy(base['args'])
+            self.ops.append(call)
+        return True
+
     # -- the history ------------------------------------------------------------------------
     def build(self, length):
         rng, k = self.rng, self.k
@@ -404,6 +444,8 @@ class _TaskGen(object):
                 self.add_limit()
             elif kind == 'dropgc':
                 self.add_dropgc()
+            elif kind == 'sweep':
+                self.add_sweep()
         if not self.live():
             self.add_new()
         if self.ops[-1]['op'] not in ('call', 'ddiff'):
@@ -430,7 +472,7 @@ def _knobs(rng, mode):
     ns = rng.choice([[1, 2], [1, 2, 3, 4], [0, 1, 2], [1, 2, 3, 4, 5, 6], [1, 3], [2, 4], [1]])
     orders = rng.choice([[2, 4], [1, 2, 3, 4], [2, 4, 6, 8], [2], [1, 2, 3, 4, 5, 6, 7, 8], [2, 6]])
     weights = {'newgen': 0.5, 'new': 2.0, 'call': 5.0, 'set': 1.5, 'restore': 1.0, 'cache': 1.0,
-               'ddiff': 0.5, 'rule': 0.5, 'steps': 0.5, 'limit': 0.2, 'dropgc': 0.3}
+               'ddiff': 0.5, 'rule': 0.5, 'steps': 0.5, 'limit': 0.2, 'dropgc': 0.3, 'sweep': 0.6}
     for key in list(weights):
         u = rng.random()
         if u < 0.25 and key != 'call':
@@ -875,7 +917,7 @@ def match_known(viol, known):
 
 def evidence(tier, seed, by_mode, det, n_viol, known_hits, errors, wall):
     from sim.common import source_hash
-    tot_runs = sum(s.get('runs', 0) for s in by_mode.values())
+    tot_runs = sum(s.get('runs', 0) + s.get('directed_runs', 0) for s in by_mode.values())
     shapes = set()
     states = set()
     sigs = set()
@@ -911,6 +953,9 @@ def evidence(tier, seed, by_mode, det, n_viol, known_hits, errors, wall):
             'yield_points': s.get('points', 0), 'preemptions': s.get('switches', 0),
             'hot_yield_points_after_shared_writes': s.get('hot_points', 0),
             'atomicity_probe_switches': s.get('probe_switches', 0),
+            'conflict_directed_runs': s.get('directed_runs', 0),
+            'conflict_directed_windows_reached': s.get('directed_windows_reached', 0),
+            'conflict_directed_compared_calls': s.get('directed_compared', 0),
             'waits_on_library_locks': s.get('lock_blocks', 0),
             'seeds_per_hour': int(s.get('runs', 0) * 3600 / w),
             'runs_by_ntasks': s.get('runs_by_ntasks', {}), 'max_threads': s.get('max_ntasks', 0),
